@@ -1,4 +1,5 @@
 import Modbus.Lemmas.RspCodec
+import Modbus.Lemmas.Wf
 /-
 C02 — response and exception PDU round-trip.
 
@@ -11,8 +12,9 @@ written returns a response of the same kind whose meaning — read through the c
 iterator — is `m.padded`: identical address / quantity / value fields, identical register words;
 for coil reads identical leading coils, count rounded up to a whole byte, padding coils off.
 
-`InScopeRsp m` excludes only custom responses that carry one of the nine modelled codes (their
-bytes are a dedicated kind).  Write Single Coil is INCLUDED: the crate's own three-byte form
+`InScopeRsp m` excludes only custom responses that carry one of the ten codes the response decoder
+models (`modelledRspCodes`: the nine request-side codes and 0x07, Read Exception Status; their bytes are a
+dedicated kind).  Write Single Coil is INCLUDED: the crate's own three-byte form
 (open finding D12, see C03Rsp) round-trips at PDU level.
 
 Exception responses: all 128 function codes below 0x80 × all 9 exceptions, by case analysis.
@@ -131,6 +133,55 @@ theorem rsp_roundtrip_coils (bs : List Bool) (t : Bytes) (c : Coils) (h : Coils.
   · simp [Coils.len, Nat.mul_comm]
   · intro i h1 h2; rw [padTo8_length] at h2; exact padTo8_getElem?_ge bs i h1 h2
 
+/-- the coil clause for EVERY backed coil container, however it was obtained (`from_bools`, a decoded
+    response, a decoded write-multiple-coils request with set padding bits, …) and whatever its raw bytes
+    hold: placed in a Read Coils / Read Discrete Inputs response and encoded into any sufficient buffer, the
+    bytes written are the specification's PDU of its `n` coils (padding bits zero on the wire), and they decode
+    to a container of `8 * ⌈n/8⌉` coils whose first `n` items are the container's coils and whose remaining
+    items are ALL off. -/
+theorem rsp_roundtrip_coils_any (c : Coils) (hb : c.Backed) (h255 : packedCoilsLen c.quantity ≤ 255)
+    (buf : Bytes) (hl : 2 + packedCoilsLen c.quantity ≤ buf.length) :
+    ∃ out1 out2 c' l,
+      (Response.readCoils c).encode buf = .ok (2 + packedCoilsLen c.quantity, out1) ∧
+      (Response.readDiscreteInputs c).encode buf = .ok (2 + packedCoilsLen c.quantity, out2) ∧
+      out1.take (2 + packedCoilsLen c.quantity) = Spec.rspBytes (.readCoils c.bits) ∧
+      out2.take (2 + packedCoilsLen c.quantity) = Spec.rspBytes (.readDiscreteInputs c.bits) ∧
+      Response.decode (out1.take (2 + packedCoilsLen c.quantity)) = .ok (.readCoils c') ∧
+      Response.decode (out2.take (2 + packedCoilsLen c.quantity)) = .ok (.readDiscreteInputs c') ∧
+      c.iter = .ok c.bits ∧ c.bits.length = c.quantity ∧
+      c'.len = 8 * packedCoilsLen c.quantity ∧ c'.iter = .ok l ∧ l.length = 8 * packedCoilsLen c.quantity ∧
+      l.take c.quantity = c.bits ∧
+      (∀ i, c.quantity ≤ i → i < l.length → l[i]? = some false) := by
+  have hw1 : (Response.readCoils c).Wf := hb
+  have hw2 : (Response.readDiscreteInputs c).Wf := hb
+  have hi1 := hw1.image_eq_spec (m := .readCoils c.bits) rfl (fun a h => by cases h)
+  have hi2 := hw2.image_eq_spec (m := .readDiscreteInputs c.bits) rfl (fun a h => by cases h)
+  have hn1 : (Response.readCoils c).image.length = 2 + packedCoilsLen c.quantity := by
+    have := hw1.pduLen_eq trivial
+    simp only [Response.pduLen, Coils.packedLen, Res.ok.injEq] at this; exact this.symm
+  have hn2 : (Response.readDiscreteInputs c).image.length = 2 + packedCoilsLen c.quantity := by
+    have := hw2.pduLen_eq trivial
+    simp only [Response.pduLen, Coils.packedLen, Res.ok.injEq] at this; exact this.symm
+  have hlen : (padTo8 c.bits).length = 8 * packedCoilsLen c.quantity := by
+    rw [padTo8_length, Coils.bits_length]; rfl
+  refine ⟨(Response.readCoils c).image ++ buf.drop (2 + packedCoilsLen c.quantity),
+    (Response.readDiscreteInputs c).image ++ buf.drop (2 + packedCoilsLen c.quantity),
+    c.rounded, padTo8 c.bits, ?_, ?_, ?_, ?_, ?_, ?_, hb.iter_eq, c.bits_length, ?_, ?_, hlen, ?_, ?_⟩
+  · rw [hw1.encode_eq trivial buf, if_pos (show (Response.readCoils c).CountFits from h255), hn1, if_neg (by omega)]
+  · rw [hw2.encode_eq trivial buf, if_pos (show (Response.readDiscreteInputs c).CountFits from h255), hn2,
+      if_neg (by omega)]
+  · rw [List.take_left' hn1, hi1]
+  · rw [List.take_left' hn2, hi2]
+  · rw [List.take_left' hn1]; exact (Response.redecode_coils c h255 hb).1
+  · rw [List.take_left' hn2]; exact (Response.redecode_coils c h255 hb).2
+  · simp [Coils.len, Coils.rounded, Nat.mul_comm]
+  · rw [← hb.rounded_bits]; exact hb.rounded_backed.iter_eq
+  · have := padTo8_take c.bits; rwa [Coils.bits_length] at this
+  · intro i h1 h2
+    rw [hlen] at h2
+    exact padTo8_getElem?_ge c.bits i (by rw [Coils.bits_length]; exact h1)
+      (by rw [Coils.bits_length]; exact h2)
+
 /-- the register clause in explicit form, for the three register kinds: the decoded container holds
     exactly the words sent (count, iteration, and the value itself) -/
 theorem rsp_roundtrip_registers (ws : List UInt16) (t : Bytes) (d : Data) (h : Data.fromWords ws t = .ok d)
@@ -194,10 +245,10 @@ theorem rsp_roundtrip_fixed (a v : UInt16) (buf : Bytes) (hl : 5 ≤ buf.length)
   · exact Response.decode_spec_writeMultipleCoils a v
   · exact Response.decode_spec_writeMultipleRegisters a v
 
-/-- custom responses in explicit form: any code byte that is not one of the nine modelled kinds
+/-- custom responses in explicit form: any code byte that is not one of the ten modelled kinds
     (including bytes ≥ 0x80), built from `FunctionCode::new` or `FunctionCode::Custom`, any data:
     the same function-code byte and the same data come back -/
-theorem rsp_roundtrip_custom (c : UInt8) (hc : c ∉ modelledReqCodes) (data buf : Bytes)
+theorem rsp_roundtrip_custom (c : UInt8) (hc : c ∉ modelledRspCodes) (data buf : Bytes)
     (hl : 1 + data.length ≤ buf.length) :
     ∀ fc, fc = FunctionCode.new c ∨ fc = FunctionCode.custom c →
       ∃ out, (Response.custom fc data).encode buf = .ok (1 + data.length, out) ∧
@@ -216,6 +267,158 @@ theorem rsp_roundtrip_custom (c : UInt8) (hc : c ∉ modelledReqCodes) (data buf
   · rw [List.take_left' hn]
     simp only [Response.image, hv, List.cons_append, List.nil_append]
     exact Response.decode_custom c hc data
+
+/-- Read Exception Status — the one RTU-only response kind encoder and decoder implement (`pdu_len` 2, the
+    other RTU-only kinds are `unimplemented!()`): for every status byte `s` and every buffer, `pdu_len` is 2,
+    a buffer shorter than 2 is refused with `BufferSize`, otherwise exactly the two bytes `07 s` are written
+    (rest untouched), and they decode to `ReadExceptionStatus(s)` — the SAME value. -/
+theorem rsp_read_exception_status_roundtrip (s : UInt8) (buf : Bytes) :
+    (Response.readExceptionStatus s).pduLen = .ok 2 ∧
+    (buf.length < 2 → (Response.readExceptionStatus s).encode buf = .err .bufferSize) ∧
+    (2 ≤ buf.length → ∃ out,
+      (Response.readExceptionStatus s).encode buf = .ok (2, out) ∧ out = [0x07, s] ++ buf.drop 2 ∧
+      out.take 2 = [0x07, s] ∧ (out.take 2).length = 2 ∧
+      Response.decode (out.take 2) = .ok (.readExceptionStatus s)) ∧
+    (Response.readExceptionStatus s).sem = some (.readExceptionStatus s) ∧
+    BuiltRsp (.readExceptionStatus s) (.readExceptionStatus s) := by
+  have he : (Response.readExceptionStatus s).Encodable := trivial
+  have hi : (Response.readExceptionStatus s).image = [0x07, s] := rfl
+  refine ⟨rfl, ?_, ?_, rfl, .readExceptionStatus s⟩
+  · intro h
+    rw [Response.encode_eq _ buf he, hi, if_pos (by simpa using h)]
+  · intro h
+    refine ⟨[0x07, s] ++ buf.drop 2, ?_, rfl, ?_, ?_, ?_⟩
+    · rw [Response.encode_eq _ buf he, hi, if_neg (by simp; omega)]; rfl
+    · simp
+    · simp
+    · have : ([0x07, s] ++ buf.drop 2).take 2 = [0x07, s] := by simp
+      rw [this]; exact Response.decode_readExceptionStatus s []
+
+/-- the code byte alone is refused: the status byte is required -/
+theorem rsp_read_exception_status_short : Response.decode [0x07] = .err .bufferSize :=
+  Response.decode_readExceptionStatus_short
+
+/-- anything after the status byte is ignored by the decoder (the framing layers cut the PDU to two bytes) -/
+theorem rsp_read_exception_status_trailing (s : UInt8) (rest : Bytes) :
+    Response.decode (0x07 :: s :: rest) = .ok (.readExceptionStatus s) :=
+  Response.decode_readExceptionStatus s rest
+
+/-- 0x07 is a MODELLED response code: a `Response::Custom` carrying it is outside `InScopeRsp`, because its
+    bytes are, correctly, read back as the dedicated kind -/
+example : (0x07 : UInt8) ∈ modelledRspCodes ∧ ¬ InScopeRsp (.custom 0x07 [0x5A]) ∧
+    (Response.custom (.custom 0x07) [0x5A]).encode [0, 0] = .ok (2, [0x07, 0x5A]) ∧
+    Response.decode [0x07, 0x5A] = .ok (.readExceptionStatus 0x5A) := by
+  refine ⟨by decide, fun h => h (by decide), by decide +kernel, by decide +kernel⟩
+
+/-! ### the IDENTICAL value comes back -/
+
+/-- the responses whose decoded form can be the identical Rust value: registers, the fixed kinds (the crate's
+    own three-byte Write Single Coil included), Read Exception Status; coil reads exactly when the count is a
+    whole number of bytes (the PDU carries a byte count: `rsp_roundtrip_exact_coils_iff`); a custom response
+    when it carries `FunctionCode::new(code)` — the form `Response::try_from` wraps the code in — with a code
+    the response decoder does not model -/
+def RspExactScope : Response → Prop
+  | .readCoils c | .readDiscreteInputs c => c.quantity % 8 = 0
+  | .custom fc _ => fc = FunctionCode.new fc.value ∧ fc.value ∉ modelledRspCodes
+  | _ => True
+
+instance (r : Response) : Decidable (RspExactScope r) := by
+  cases r <;> unfold RspExactScope <;> infer_instance
+
+/-- what decoding the image of a built coil response gives: the same packed bytes, count rounded up -/
+theorem rsp_decode_image_coils (bs : List Bool) (h255 : (bs.length + 7) / 8 ≤ 255) :
+    Response.decode (Response.readCoils ⟨Spec.packBits bs, bs.length⟩).image =
+      .ok (.readCoils ⟨Spec.packBits bs, (bs.length + 7) / 8 * 8⟩) ∧
+    Response.decode (Response.readDiscreteInputs ⟨Spec.packBits bs, bs.length⟩).image =
+      .ok (.readDiscreteInputs ⟨Spec.packBits bs, (bs.length + 7) / 8 * 8⟩) := by
+  have h2 : (Coils.mk (Spec.packBits bs) bs.length).packedLen ≤ (Spec.packBits bs).length := by
+    rw [packBits_length]; exact Nat.le_refl _
+  have := Response.redecode_coils ⟨Spec.packBits bs, bs.length⟩ h255 h2
+  rw [Coils.wire_packBits] at this
+  exact this
+
+/-- decoding the wire image of a built response in `RspExactScope` whose payload fits gives back the
+    IDENTICAL value -/
+theorem rsp_decode_image_exact {r : Response} {m : Spec.RspMeaning} (hb : BuiltRsp r m) (hf : m.fits)
+    (hx : RspExactScope r) : Response.decode r.image = .ok r := by
+  cases hb with
+  | @readCoils bs t c h =>
+    obtain ⟨_, _, rfl⟩ := Rsp.fromBools_ok h
+    have hx : bs.length % 8 = 0 := hx
+    rw [(rsp_decode_image_coils _ hf.2).1]
+    congr 3; omega
+  | @readDiscreteInputs bs t c h =>
+    obtain ⟨_, _, rfl⟩ := Rsp.fromBools_ok h
+    have hx : bs.length % 8 = 0 := hx
+    rw [(rsp_decode_image_coils _ hf.2).2]
+    congr 3; omega
+  | readHoldingRegisters h =>
+    obtain ⟨_, rfl⟩ := Rsp.fromWords_ok h
+    rw [(BuiltRsp.readHoldingRegisters h).image_eq (fun a h => by cases h)]
+    exact Response.decode_spec_readHoldingRegisters _ hf.2
+  | readInputRegisters h =>
+    obtain ⟨_, rfl⟩ := Rsp.fromWords_ok h
+    rw [(BuiltRsp.readInputRegisters h).image_eq (fun a h => by cases h)]
+    exact Response.decode_spec_readInputRegisters _ hf.2
+  | readWriteMultipleRegisters h =>
+    obtain ⟨_, rfl⟩ := Rsp.fromWords_ok h
+    rw [(BuiltRsp.readWriteMultipleRegisters h).image_eq (fun a h => by cases h)]
+    exact Response.decode_spec_readWriteMultipleRegisters _ hf.2
+  | writeSingleCoil a => exact Response.decode_image_writeSingleCoil a
+  | writeSingleRegister a w => exact Response.decode_spec_writeSingleRegister a w
+  | writeMultipleCoils a q => exact Response.decode_spec_writeMultipleCoils a q
+  | writeMultipleRegisters a q => exact Response.decode_spec_writeMultipleRegisters a q
+  | readExceptionStatus s => exact Response.decode_readExceptionStatus s []
+  | custom fc d =>
+    obtain ⟨hfc, hc⟩ := hx
+    show Response.decode (fc.value :: d) = _
+    rw [Response.decode_custom fc.value hc d, ← hfc]
+
+/-- **same-value round trip**: for a built response in `RspExactScope` whose payload fits, encoding into any
+    large-enough buffer and decoding the bytes written returns `.ok r` — the identical value -/
+theorem rsp_roundtrip_exact {r : Response} {m : Spec.RspMeaning} (hb : BuiltRsp r m) (hf : m.fits)
+    (hx : RspExactScope r) (buf : Bytes) (hl : ∀ n, r.pduLen = .ok n → n ≤ buf.length) :
+    ∃ n out, r.encode buf = .ok (n, out) ∧ r.pduLen = .ok n ∧ Response.decode (out.take n) = .ok r := by
+  have hle := hl _ hb.pduLen_eq
+  refine ⟨r.image.length, r.image ++ buf.drop r.image.length, ?_, hb.pduLen_eq, ?_⟩
+  · rw [hb.encode_fits hf, if_neg (by omega)]
+  · rw [List.take_left' rfl]; exact rsp_decode_image_exact hb hf hx
+
+/-- for coil reads the identical value comes back IF AND ONLY IF the count is a whole number of bytes
+    (otherwise the decoded count is the next multiple of 8: same leading coils, padding coils off) -/
+theorem rsp_roundtrip_exact_coils_iff (bs : List Bool) (t : Bytes) (c : Coils) (h : Coils.fromBools bs t = .ok c)
+    (h255 : (bs.length + 7) / 8 ≤ 255) :
+    (Response.decode (Response.readCoils c).image = .ok (.readCoils c) ↔ bs.length % 8 = 0) ∧
+    (Response.decode (Response.readDiscreteInputs c).image = .ok (.readDiscreteInputs c) ↔ bs.length % 8 = 0) := by
+  obtain ⟨_, _, rfl⟩ := Rsp.fromBools_ok h
+  obtain ⟨h1, h2⟩ := rsp_decode_image_coils bs h255
+  rw [h1, h2]
+  constructor
+  · constructor
+    · intro he
+      have : (bs.length + 7) / 8 * 8 = bs.length := by
+        have := congrArg (fun r => match r with | Res.ok (Response.readCoils c) => c.quantity | _ => 0) he
+        exact this
+      omega
+    · intro hm; congr 3; omega
+  · constructor
+    · intro he
+      have : (bs.length + 7) / 8 * 8 = bs.length := by
+        have := congrArg (fun r => match r with | Res.ok (Response.readDiscreteInputs c) => c.quantity | _ => 0) he
+        exact this
+      omega
+    · intro hm; congr 3; omega
+
+/-- instances: sixteen coils come back identical; five do not (count 8 comes back); a custom response built
+    with `FunctionCode::Custom(0x0B)` comes back as `Custom(FunctionCode::new(0x0B) = GetCommEventCounter, …)` -/
+example : RspExactScope (.readCoils ⟨[0xFF, 0x03], 16⟩) ∧ ¬ RspExactScope (.readCoils ⟨[0x0D], 5⟩) ∧
+    Response.decode (Response.readCoils ⟨[0xFF, 0x03], 16⟩).image = .ok (.readCoils ⟨[0xFF, 0x03], 16⟩) ∧
+    Response.decode (Response.readCoils ⟨[0x0D], 5⟩).image = .ok (.readCoils ⟨[0x0D], 8⟩) ∧
+    ¬ RspExactScope (.custom (.custom 0x0B) [1]) ∧ RspExactScope (.custom (FunctionCode.new 0x0B) [1]) ∧
+    Response.decode (Response.custom (.custom 0x0B) [1]).image = .ok (.custom .getCommEventCounter [1]) ∧
+    RspExactScope (.readExceptionStatus 0x5A) := by
+  refine ⟨by decide +kernel, by decide +kernel, by decide +kernel, by decide +kernel, by decide +kernel,
+    by decide +kernel, by decide +kernel, trivial⟩
 
 /-! ### exception responses -/
 
@@ -318,14 +521,22 @@ example : ∃ c out c',
     out = [0x01, 0x01, 0x0D, 0xEE] ∧
     Response.decode (out.take 3) = .ok (.readCoils c') ∧ c'.len = 8 ∧
     c'.iter = .ok [true, false, true, true, false, false, false, false] :=
-  ⟨⟨[0x0D, 0xAA], 5⟩, [0x01, 0x01, 0x0D, 0xEE], ⟨[0x0D], 8⟩, by decide +kernel, by decide +kernel, rfl,
+  ⟨⟨[0x0D], 5⟩, [0x01, 0x01, 0x0D, 0xEE], ⟨[0x0D], 8⟩, by decide +kernel, by decide +kernel, rfl,
     by decide +kernel, by decide +kernel, by decide +kernel⟩
+
+/-- `rsp_roundtrip_coils_any` on a container with set padding bits (three coils in the raw byte `FF`, as the
+    request decoder returns for `0F 00 01 00 03 01 FF`): `01 01 07` on the wire, eight coils back, five off -/
+example : (Coils.mk [0xFF] 3).Backed ∧ packedCoilsLen (Coils.mk [0xFF] 3).quantity ≤ 255 ∧
+    (Response.readCoils ⟨[0xFF], 3⟩).encode [9, 9, 9, 9] = .ok (3, [0x01, 0x01, 0x07, 9]) ∧
+    Response.decode [0x01, 0x01, 0x07] = .ok (.readCoils ⟨[0x07], 8⟩) ∧
+    (Coils.mk [0x07] 8).iter = .ok [true, true, true, false, false, false, false, false] := by
+  refine ⟨by decide +kernel, by decide +kernel, by decide +kernel, by decide +kernel, by decide +kernel⟩
 
 example : padTo8 [true, false, true, true, false] = [true, false, true, true, false, false, false, false] := by
   decide +kernel
 
 /-- the hypotheses of `rsp_roundtrip` hold for that instance -/
-example : BuiltRsp (.readCoils ⟨[0x0D, 0xAA], 5⟩) (.readCoils [true, false, true, true, false]) ∧
+example : BuiltRsp (.readCoils ⟨[0x0D], 5⟩) (.readCoils [true, false, true, true, false]) ∧
     (Spec.RspMeaning.readCoils [true, false, true, true, false]).fits ∧
     InScopeRsp (.readCoils [true, false, true, true, false]) :=
   ⟨.readCoils (t := [0xFF, 0xAA]) (by decide +kernel), by simp [Spec.RspMeaning.fits], trivial⟩
@@ -366,6 +577,11 @@ example : (ExceptionResponse.mk (.custom 0x7F) .gatewayTargetDevice).encode [0, 
 /-- custom response with a code ≥ 0x80 -/
 example : (Response.custom (.custom 0x91) [7, 8]).encode [0, 0, 0] = .ok (3, [0x91, 7, 8]) ∧
     Response.decode [0x91, 7, 8] = .ok (.custom (.custom 0x91) [7, 8]) :=
+  ⟨by decide +kernel, by decide +kernel⟩
+
+/-- Read Exception Status: encoded as `07 s`, read back as the very same value -/
+example : (Response.readExceptionStatus 0x5A).encode [0, 0, 9] = .ok (2, [0x07, 0x5A, 9]) ∧
+    Response.decode [0x07, 0x5A] = .ok (.readExceptionStatus 0x5A) :=
   ⟨by decide +kernel, by decide +kernel⟩
 
 /-- Write Single Coil: the crate's own three-byte form -/
